@@ -203,8 +203,17 @@ func ZZ_C14_kept(a []int) {
 		return
 	}
 	s1 := zzSnap(q1)
+	var w1 zzSink
+	q1.WriteTo(&w1)
 	_, e2 := ReadPacket(r)
 	zzReach("kept")
 	zzEmitU("err", zzB2U(e2 != nil))
 	zzViewEq(zzSnap(q1), s1, "reading the next frame changes the packet returned before")
+	var w2 zzSink
+	q1.WriteTo(&w2)
+	if len(w1.b) == len(w2.b) {
+		zzAssert(zzBytesEq(w1.b, w2.b), "reading the next frame changes the encoding of the packet returned before")
+	} else {
+		zzAssert(false, "reading the next frame changes the encoding of the packet returned before (length)")
+	}
 }
